@@ -237,6 +237,18 @@ func updateChildren(client *dynamicclientset.ResourceClient, updateStrategy Chil
 
 	for name, obj := range desired {
 		if ssaOptions.Strategy == ApplyStrategyServerSideApply {
+			// We always claim everything we apply, as the create path below does.
+			hasParentRef := false
+			for _, ref := range obj.GetOwnerReferences() {
+				if ref.UID == parent.GetUID() {
+					hasParentRef = true
+					break
+				}
+			}
+			if !hasParentRef {
+				obj.SetOwnerReferences(append(obj.GetOwnerReferences(), *MakeControllerRef(parent)))
+			}
+
 			data, err := json.Marshal(obj)
 			if err != nil {
 				errs = append(errs, err)
